@@ -164,8 +164,11 @@ class ExplorerScriptMacro:
         for pos_mark in self.source_map.get_position_marks__direct():
             smb.add_macro_position_mark(self.included__relative_path, self.name, pos_mark)
         # Also add the sub-macro position marks to the map
-        for m in self.source_map.get_position_marks__macros():
-            smb.add_macro_position_mark(*m)
+        for mark_file_path, mark_macro_name, mark in self.source_map.get_position_marks__macros():
+            # If the file path was None, then it's OUR file (same as for the opcode entries).
+            if mark_file_path is None:
+                mark_file_path = self.included__relative_path
+            smb.add_macro_position_mark(mark_file_path, mark_macro_name, mark)
 
         out_ops.append(end_label)
 
